@@ -517,42 +517,43 @@ def c08_world(args):
     T = load("polyply.src.topology")
     base = os.path.join(scratch, f"p{os.getpid()}")
     out = []
-    try:
-        builder = SPECIAL.get(w["fam"], build_tree)
-        style = w["sec"].get("noise", 0)
-        root = builder(base, w, [("A", 1)], style)
-        flat, st = run_flatten(root, "resolved")
-        avail = sorted(set(moltypes_in(flat))) if st["abort"] is None else ["A"]
-        mollist = pick_mollist(w, avail)
-        root = builder(base, w, mollist, style)
-        flat, st = run_flatten(root, "resolved")
-        key = w.get("key", "c08-flatten")
-        if st["tested_macro_defined_in_branch"]:
-            key = "C08-condition-reevaluated-after-define-in-branch"
-        top = compare(T, root, flat, st["abort"], base, "resolved.top", key, out, err_key=key if key != "c08-flatten" else "c08-error-abort")
-        textual = 0
-        if not out and st["abort"] is None:
-            try:
-                tflat, _ = run_flatten(root, "textual")
-                if tflat != flat:
-                    textual = 1
-                    compare(T, root, tflat, None, base, "textual.top", key + "-textual", out, guard_key="F12-guard-meta-through-include")
-            except NotTextual:
-                pass
-        if style and not out and st["abort"] is None:
-            clean = os.path.join(base, "_clean")
-            croot = builder(clean, w, mollist, 0)
-            cflat, _ = run_flatten(croot, "resolved")
-            compare(T, root, cflat, None, base, "clean.top", "c08-noise-independence", out)
-        if top is not None and not out:
-            bad = check_instances(top, mollist)
-            if bad:
-                out.append((bad[0], bad[1], ""))
-        nontrivial = st["cond_includes"] >= 1
-        files = dump_tree(base) if out else ""
-        return nontrivial, textual, [(k, what, files + ("\n=== flattened\n" + fl if fl else "")) for k, what, fl in out], mollist
-    finally:
-        pass
+    builder = SPECIAL.get(w["fam"], build_tree)
+    style = w["sec"].get("noise", 0)
+    root = builder(base, w, [("A", 1)], style)
+    flat, st = run_flatten(root, "resolved")
+    avail = sorted(set(moltypes_in(flat))) if st["abort"] is None else ["A"]
+    mollist = pick_mollist(w, avail)
+    root = builder(base, w, mollist, style)
+    flat, st = run_flatten(root, "resolved")
+    key = w.get("key", "c08-flatten")
+    if st["tested_macro_defined_in_branch"]:
+        # outside the quantifier of C08: the statement speaks of macros "defined (outside conditionals) before that point";
+        # a #define that sits (through an include) inside the conditional that tests it is not covered.  Lead's triage:
+        # demanding a behaviour here would ask for more than the statement says, so these worlds are not evaluated.
+        return False, 0, [], mollist
+    top = compare(T, root, flat, st["abort"], base, "resolved.top", key, out, err_key=key if key != "c08-flatten" else "c08-error-abort")
+    main_bad = bool(out)
+    if top is not None and not main_bad:
+        bad = check_instances(top, mollist)
+        if bad:
+            out.append((bad[0], bad[1], ""))
+    textual = 0
+    if not main_bad and st["abort"] is None:
+        try:
+            tflat, _ = run_flatten(root, "textual")
+            if tflat != flat:
+                textual = 1
+                compare(T, root, tflat, None, base, "textual.top", key + "-textual", out, guard_key="F12-guard-meta-through-include")
+        except NotTextual:
+            pass
+    if style and not main_bad and st["abort"] is None:
+        clean = os.path.join(base, "_clean")
+        croot = builder(clean, w, mollist, 0)
+        cflat, _ = run_flatten(croot, "resolved")
+        compare(T, root, cflat, None, base, "clean.top", "c08-noise-independence", out)
+    nontrivial = st["cond_includes"] >= 1
+    files = dump_tree(base) if out else ""
+    return nontrivial, textual, [(k, what, files + ("\n=== flattened\n" + fl if fl else "")) for k, what, fl in out], mollist
 
 
 # ---- small separate families for the known / suspected defects ------------------------------------------------
@@ -717,7 +718,7 @@ def run_c08(ctx, res):
         for key, what, files in bad:
             per_key.setdefault(key, []).append((w, what, files, mollist))
     for key, lst in sorted(per_key.items(), key=lambda kv: (not kv[0].startswith("c08-"), kv[0])):     # unexpected classes first
-        if len(res.violations) >= 5:
+        if len(res.violations) >= 25:
             break
         w, what, files, mollist = min(lst, key=lambda x: len(x[2]))
         res.violations.append(Violation("c08-flatten", f"{what}  [{len(lst)} worlds fail with this key]",
@@ -1023,7 +1024,9 @@ def c09_worlds(ctx):
     # family FT: the same atom-type key listed for two function types
     T = ("A", "B", "B", "A")
     t9, t2 = [(T, ["9", "0", "3.5", "1"]), (T, ["9", "180", "1.5", "2"])], [(T, ["2", "35.0", "400"])]
-    for table in (t9 + t2, t2 + t9):
+    # lead's triage: the statement of C09 says nothing about the function type column of a type table, so this
+    # family asked for more than the statement; it is kept for reference but not enumerated
+    for table in ():
         for which in (0, 1, 2):
             dih = [((1, 2, 3, 4), ["9"]), ((4, 3, 2, 1), ["2"])]
             written = dict(fixed_written, dihedrals=dih if which == 2 else dih[which:which + 1])
@@ -1049,7 +1052,7 @@ def run_c09(ctx, res):
         for key, what, text in bad:
             per_key.setdefault(key, []).append((what, text))
     for key, lst in sorted(per_key.items(), key=lambda kv: (not kv[0].startswith("c09-"), kv[0])):
-        if len(res.violations) >= 5:
+        if len(res.violations) >= 25:
             break
         what, text = min(lst, key=lambda x: len(x[1]))
         res.violations.append(Violation("c09-preprocess", f"{what}  [{len(lst)} worlds fail with this key]", inputs={"top": text},
